@@ -16,6 +16,8 @@ type Case struct {
 	AcceptEncoding []string `json:"accept_encoding"` // field values, one per header line; nil = header absent
 	Prog           Program  `json:"backend"`
 	Framing        string   `json:"framing,omitempty"` // balancer only: cl | chunked | close | none
+	// Interim (balancer only): the backend sends this interim response (100, 102 or 103) before its final one; 0 = none
+	Interim int `json:"interim,omitempty"`
 }
 
 func (c *Case) describe() string {
@@ -57,6 +59,7 @@ func (c *Case) Facts(body []byte) *Facts {
 // Script renders the backend side of a balancer case.
 func (c *Case) Script(body []byte) *lab.RespScript {
 	s := &lab.RespScript{Status: c.Prog.Status, Framing: c.Framing, Body: body, BodyLen: len(body), Parts: c.Prog.Parts, BarrierAfter: -1}
+	s.Interim, s.InterimCode = c.Interim != 0, c.Interim
 	if c.Prog.ContentType != "" {
 		s.Header = append(s.Header, lab.KV{K: "Content-Type", V: c.Prog.ContentType})
 	}
@@ -329,6 +332,9 @@ func genExchange(t *rapid.T, ch Chain, terminal string) Case {
 		p.DeclareCL = !c.bodiless() && rapid.Bool().Draw(t, "declarecl")
 	} else {
 		c.Framing = rapid.SampledFrom([]string{"cl", "cl", "chunked", "close"}).Draw(t, "framing")
+		if rapid.IntRange(0, 5).Draw(t, "interim") == 0 {
+			c.Interim = rapid.SampledFrom([]int{103, 103, 100, 102}).Draw(t, "interim_code")
+		}
 		if c.bodiless() {
 			c.Framing = "none"
 		}
